@@ -6,15 +6,21 @@ import (
 
 // The one schema of the check: rich in input types (scalars, enum, list, nested
 // list, input object with required field, defaults, recursive list / object
-// members) and abstract types (interface with two implementers, union).
+// members) and abstract types (interface with two implementers, union), a custom
+// executable directive, and fields whose argument types differ only in one
+// nullability level, the list depth or a similar scalar (t, tn, tl).
 const sdl = `
 schema { query: Query }
+directive @tag(name: String, n: Int) repeatable on FIELD | FRAGMENT_SPREAD | INLINE_FRAGMENT | QUERY
 type Query {
   a: A
   is: [I]
   us: [U]
   f(x: Int, s: String = "sd", e: E, l: [Int], ll: [[Int]], o: In, ol: [In]): String
   g(r: Int!, d: Int! = 7): String
+  t(i: Int, l: [Int], li: [Int!], ll: [[Int]], lli: [[Int]!], fl: Float, s: String, id: ID, ol: [In], oli: [In!]): String
+  tn(i: Int!): String
+  tl(l: [Int]!, li: [Int!]!): String
 }
 type A implements I { id: ID! n: String k(x: Int, o: In): String a: A }
 type B implements I { id: ID! n: String b: Int as: [A] }
@@ -32,9 +38,10 @@ type argDef struct {
 }
 
 type fieldDef struct {
-	Name string
-	Ret  string // named return type
-	Args []argDef
+	Name   string
+	Ret    string // named return type
+	Args   []argDef
+	NoBase bool // not part of the base enumeration (reached through decorations only)
 }
 
 type typeDef struct {
@@ -52,6 +59,10 @@ var types = map[string]*typeDef{
 		{Name: "us", Ret: "U"},
 		{Name: "f", Ret: "String", Args: []argDef{{"x", "Int"}, {"s", "String"}, {"e", "E"}, {"l", "[Int]"}, {"ll", "[[Int]]"}, {"o", "In"}, {"ol", "[In]"}}},
 		{Name: "g", Ret: "String", Args: []argDef{{"r", "Int!"}, {"d", "Int!"}}},
+		// "twin type" fields: argument types that differ only in one nullability level / list depth / similar scalar
+		{Name: "t", Ret: "String", NoBase: true, Args: []argDef{{"i", "Int"}, {"l", "[Int]"}, {"li", "[Int!]"}, {"ll", "[[Int]]"}, {"lli", "[[Int]!]"}, {"fl", "Float"}, {"s", "String"}, {"id", "ID"}, {"ol", "[In]"}, {"oli", "[In!]"}}},
+		{Name: "tn", Ret: "String", NoBase: true, Args: []argDef{{"i", "Int!"}}},
+		{Name: "tl", Ret: "String", NoBase: true, Args: []argDef{{"l", "[Int]!"}, {"li", "[Int!]!"}}},
 	}},
 	"A": {Name: "A", Kind: 'o', Impl: []string{"I"}, Fields: []fieldDef{
 		{Name: "id", Ret: "ID"},
